@@ -428,7 +428,12 @@ func (m *Machine) exec(st *State, fr *Frame, ins ssa.Instruction) {
 		if !m.isGhostFn(fr.fn) {
 			m.frameCheck(st, fr, x, p, "store")
 		}
-		m.Store(st, p, m.val(st, fr, x.Val))
+		sv := m.val(st, fr, x.Val)
+		if !st.pure && p.Idx == nil && p.Ref != nil && !m.isGhostFn(fr.fn) && !m.isLocalRef(st, p.Ref) && m.isLockGuardedField(p) {
+			// stores to lock-guarded fields of shared objects are events ("store:T.f"), so that contracts can order them
+			m.addEvent(st, "store:"+p.Mem+"."+p.Path, []Value{&Ptr{Mem: p.Mem, Ref: p.Ref, Elem: p.Elem}, sv}, nil)
+		}
+		m.Store(st, p, sv)
 		next()
 	case *ssa.MakeSlice:
 		m.makeSlice(st, fr, x)
@@ -1570,6 +1575,15 @@ func isStatsCounter(ins ssa.Instruction) bool {
 			if n, ok := pt.Elem().(*types.Named); ok && strings.HasSuffix(n.Obj().Name(), "Stats") {
 				return true
 			}
+		}
+	}
+	return false
+}
+
+func (m *Machine) isLockGuardedField(p *Ptr) bool {
+	for _, g := range m.P.Contracts.Guards {
+		if g.Kind == "by" && g.Field == p.Mem+"."+p.Path {
+			return true
 		}
 	}
 	return false
